@@ -683,6 +683,9 @@ func (o *operation) handle() {
 		}
 	}
 
+	// Once the handler is done, nothing it may have kept (a leaked goroutine, a
+	// late cleanup) reads the client's body through this operation any more.
+	defer func() { _ = o.request.Body.Close() }()
 	o.methodConf.handler.ServeHTTP(o.writer, o.request)
 }
 
